@@ -221,10 +221,15 @@ Section Model.
         ++ block_diag_from (off + p) total t
     end.
   Definition mget (m : mat) (i j : nat) : T := nth j (nth i m []) z.
-  (* curvature_matrix_mirrored_from: second test wins *)
+  (* curvature_matrix_mirrored_from.  The double loop visits (i, j) and (j, i); at each visit the two conditional writes set
+     BOTH cells, first from [i, j] then from [j, i].  The last visit of a pair is the one with the larger row index, whose
+     second test reads the UPPER-triangle cell: the pair ends up with the upper value if it is non-zero, else the lower one
+     (same reading as C04's [mir]; the two only differ when both cells are non-zero and different, which the block
+     assembly never produces) *)
   Definition mirror (m : mat) : mat :=
     imap (fun i row => imap (fun j _ =>
-            if tnz K (mget m j i) then mget m j i else if tnz K (mget m i j) then mget m i j else z) 0 row) 0 m.
+            let lo := Nat.min i j in let hi := Nat.max i j in
+            if tnz K (mget m lo hi) then mget m lo hi else if tnz K (mget m hi lo) then mget m hi lo else z) 0 row) 0 m.
   (* curvature_matrix_with_added_to_diag_from *)
   Definition add_diag (eps : T) (idx : list nat) (m : mat) : mat :=
     fold_left (fun acc k => imap (fun i row => if Nat.eqb i k
@@ -616,6 +621,171 @@ Section Factory.
     end.
 End Factory.
 
+
+(* -------------------------------------------------------------------------------------------------- *)
+(* Preloads.set_*(fit_0, fit_1): the production path that FILLS the slots, from the inversions of two fits.         *)
+(* A fit's inversion is an inversion object in some state (its cached_property values, its own Preloads object).   *)
+(* Every set_* method first clears its slots, then reads attributes of BOTH inversions (which fills their caches), *)
+(* compares them (max |a - b| < 1e-8, [cmpk]) and stores fit_0's values.  set_curvature_matrix stores a COPY of     *)
+(* inversion_0.curvature_matrix (/repo commit 1fc8a9b; before it, an alias of the cached array, which               *)
+(* curvature_reg_matrix overwrites in place).                                                                       *)
+Section SetPreloads.
+  Variable T : Type.
+  Variable K : kernels T.
+  Variable V : variant.
+  Record cmpk := { c_close_v : vec T -> vec T -> bool; c_close_m : mat T -> mat T -> bool; c_close_t : T -> T -> bool }.
+  Variable Cm : cmpk.
+  Definition put_use_wt (o : option bool) (p : pstore T) : pstore T :=
+    {| s_use_wt := o; s_wt := s_wt p; s_omm := s_omm p; s_curv := s_curv p; s_cmd := s_cmd p; s_reg := s_reg p; s_dvm := s_dvm p; s_lf := s_lf p; s_dlf := s_dlf p; s_momm := s_momm p; s_ldr := s_ldr p |}.
+  Definition put_wt (o : option (wtilde T)) (p : pstore T) : pstore T :=
+    {| s_use_wt := s_use_wt p; s_wt := o; s_omm := s_omm p; s_curv := s_curv p; s_cmd := s_cmd p; s_reg := s_reg p; s_dvm := s_dvm p; s_lf := s_lf p; s_dlf := s_dlf p; s_momm := s_momm p; s_ldr := s_ldr p |}.
+  Definition put_omm (o : option (mat T)) (p : pstore T) : pstore T :=
+    {| s_use_wt := s_use_wt p; s_wt := s_wt p; s_omm := o; s_curv := s_curv p; s_cmd := s_cmd p; s_reg := s_reg p; s_dvm := s_dvm p; s_lf := s_lf p; s_dlf := s_dlf p; s_momm := s_momm p; s_ldr := s_ldr p |}.
+  Definition put_curv (o : option (mat T)) (p : pstore T) : pstore T :=
+    {| s_use_wt := s_use_wt p; s_wt := s_wt p; s_omm := s_omm p; s_curv := o; s_cmd := s_cmd p; s_reg := s_reg p; s_dvm := s_dvm p; s_lf := s_lf p; s_dlf := s_dlf p; s_momm := s_momm p; s_ldr := s_ldr p |}.
+  Definition put_cmd (o : option (mat T)) (p : pstore T) : pstore T :=
+    {| s_use_wt := s_use_wt p; s_wt := s_wt p; s_omm := s_omm p; s_curv := s_curv p; s_cmd := o; s_reg := s_reg p; s_dvm := s_dvm p; s_lf := s_lf p; s_dlf := s_dlf p; s_momm := s_momm p; s_ldr := s_ldr p |}.
+  Definition put_reg (o : option (mat T)) (p : pstore T) : pstore T :=
+    {| s_use_wt := s_use_wt p; s_wt := s_wt p; s_omm := s_omm p; s_curv := s_curv p; s_cmd := s_cmd p; s_reg := o; s_dvm := s_dvm p; s_lf := s_lf p; s_dlf := s_dlf p; s_momm := s_momm p; s_ldr := s_ldr p |}.
+  Definition put_dvm (o : option (vec T)) (p : pstore T) : pstore T :=
+    {| s_use_wt := s_use_wt p; s_wt := s_wt p; s_omm := s_omm p; s_curv := s_curv p; s_cmd := s_cmd p; s_reg := s_reg p; s_dvm := o; s_lf := s_lf p; s_dlf := s_dlf p; s_momm := s_momm p; s_ldr := s_ldr p |}.
+  Definition put_lf (o : option (list (mat T))) (p : pstore T) : pstore T :=
+    {| s_use_wt := s_use_wt p; s_wt := s_wt p; s_omm := s_omm p; s_curv := s_curv p; s_cmd := s_cmd p; s_reg := s_reg p; s_dvm := s_dvm p; s_lf := o; s_dlf := s_dlf p; s_momm := s_momm p; s_ldr := s_ldr p |}.
+  Definition put_dlf (o : option (list (mat T))) (p : pstore T) : pstore T :=
+    {| s_use_wt := s_use_wt p; s_wt := s_wt p; s_omm := s_omm p; s_curv := s_curv p; s_cmd := s_cmd p; s_reg := s_reg p; s_dvm := s_dvm p; s_lf := s_lf p; s_dlf := o; s_momm := s_momm p; s_ldr := s_ldr p |}.
+  Definition put_momm (o : option (list (mat T))) (p : pstore T) : pstore T :=
+    {| s_use_wt := s_use_wt p; s_wt := s_wt p; s_omm := s_omm p; s_curv := s_curv p; s_cmd := s_cmd p; s_reg := s_reg p; s_dvm := s_dvm p; s_lf := s_lf p; s_dlf := s_dlf p; s_momm := o; s_ldr := s_ldr p |}.
+  Definition put_ldr (o : option T) (p : pstore T) : pstore T :=
+    {| s_use_wt := s_use_wt p; s_wt := s_wt p; s_omm := s_omm p; s_curv := s_curv p; s_cmd := s_cmd p; s_reg := s_reg p; s_dvm := s_dvm p; s_lf := s_lf p; s_dlf := s_dlf p; s_momm := s_momm p; s_ldr := o |}.
+
+  Record fit := { f_inp : input T; f_mode : option (wtilde T); f_st : state T }.
+  Definition with_st (f : fit) (st : state T) : fit :=
+    {| f_inp := f_inp f; f_mode := f_mode f; f_st := st |}.
+  Definition fread (f : fit) (q : qty) : pval T * fit :=
+    let (v, st) := observe K V (f_inp f) (f_mode f) q (f_st f) in (v, with_st f st).
+  Fixpoint freads (f : fit) (qs : list qty) : list (pval T) * fit :=
+    match qs with
+    | [] => ([], f)
+    | q :: t => let (v, f1) := fread f q in let (vs, f2) := freads f1 t in (v :: vs, f2)
+    end.
+  (* the three attributes read by the set_* methods that are not among the observed quantities *)
+  Definition dvm_prop (f : fit) : option (vec T) * fit :=                 (* inversion._data_vector_mapper *)
+    let inp := f_inp f in
+    match f_mode f with
+    | None => (match s_dvm (store (f_st f)) with
+               | Some v => Some v
+               | None => if has_mapper inp then Some (apply_vws K (zeros_v K (total inp)) (dvm_writes_map K inp)) else None
+               end, f)
+    | Some _ => let (r, st) := dvm_ref_wt K inp (f_st f) in (Some (rdv r (store st)), with_st f st)
+    end.
+  (* InversionImagingMapping._curvature_matrix_mapper_diag (since /repo commit f780999: one block
+     curvature_matrix_via_mapping_matrix_from(blurred mapping matrix of the mapper, noise_map) per mapper, WITHOUT the
+     no-regularization diagonal term, then curvature_matrix_mirrored_from) *)
+  Definition cmd_writes_map (inp : input T) : list (mwrite T) :=
+    map (fun x => {| mw_r0 := fst (snd x); mw_r1 := snd (snd x); mw_c0 := fst (snd x); mw_c1 := snd (snd x);
+                     mw_b := k_curv_mm K (conv_mm K (lo_mm (fst x))) (n inp) |}) (mappers inp).
+  Definition p_cmd_map (inp : input T) : mat T :=
+    mirror K (apply_mws K (zeros_m K (total inp) (total inp)) (cmd_writes_map inp)).
+  Definition cmd_prop (f : fit) : res (option (mat T)) :=                 (* inversion._curvature_matrix_mapper_diag *)
+    let inp := f_inp f in
+    match f_mode f with
+    | None => match s_cmd (store (f_st f)) with
+              | Some m => Ok (Some m)
+              | None => if has_mapper inp then Ok (Some (p_cmd_map inp)) else Ok None
+              end
+    | Some w => let (r, st) := cmd_ref K inp w (f_st f) in Ok (Some (rdm r (store st)))
+    end.
+  Definition dlf_prop (f : fit) : list (mat T) * fit :=                   (* inversion.data_linear_func_matrix_dict *)
+    let inp := f_inp f in
+    match s_dlf (store (f_st f)) with
+    | Some l => (rekey (funcs inp) l, f)
+    | None => let (lf, f1) := fread f QLf in (dlf_of K inp (as_l lf), f1)
+    end.
+
+  Inductive setter := SetWt | SetOmm | SetLf | SetCurv | SetReg.
+  Definition ncols (m : mat T) : nat := length (hd [] m).
+  Definition same_shape (a b : mat T) : bool := Nat.eqb (length a) (length b) && Nat.eqb (ncols a) (ncols b).
+
+  Definition run_setter (s : setter) (P : pstore T) (f0 f1 : fit) : res unit * pstore T * fit * fit :=
+    let inp0 := f_inp f0 in
+    match s with
+    | SetWt =>                                                  (* set_w_tilde_imaging *)
+        let P1 := put_use_wt (Some false) (put_wt None P) in
+        if negb (has_mapper inp0) then (Ok tt, P1, f0, f1)
+        else if c_close_v Cm (n inp0) (n (f_inp f1))
+             then (Ok tt, put_use_wt (Some true)
+                            (put_wt (Some {| wt_w := wt_w (ds_wt (in_ds inp0)); wt_nv := hd (t0 K) (n inp0) |}) P1), f0, f1)
+             else (Ok tt, P1, f0, f1)
+    | SetOmm =>                                                 (* set_operated_mapping_matrix_with_preloads *)
+        let P1 := put_omm None P in
+        let (b0, f0a) := fread f0 QOmm in let (b1, f1a) := fread f1 QOmm in
+        if Nat.eqb (ncols (as_m b0)) (ncols (as_m b1)) && c_close_m Cm (as_m b0) (as_m b1)
+        then (Ok tt, put_omm (Some (as_m b0)) P1, f0a, f1a) else (Ok tt, P1, f0a, f1a)
+    | SetLf =>                                                  (* set_linear_func_inversion_dicts *)
+        let P1 := put_lf None P in
+        if negb (has_mapper inp0) || negb (has_func inp0) then (Ok tt, P1, f0, f1)
+        else
+          let (l0, f0a) := fread f0 QLf in let (l1, f1a) := fread f1 QLf in
+          let pairs := combine (as_l l0) (as_l l1) in
+          if negb (Nat.eqb (length pairs) 0) && forallb (fun ab => c_close_m Cm (fst ab) (snd ab)) pairs
+          then let (dl, f0b) := dlf_prop f0a in (Ok tt, put_dlf (Some dl) (put_lf (Some (as_l l0)) P1), f0b, f1a)
+          else (Ok tt, P1, f0a, f1a)
+    | SetCurv =>                                                (* set_curvature_matrix *)
+        let P1 := put_momm None (put_cmd None (put_dvm None (put_curv None P))) in
+        match cmd_prop f0 with
+        | Raise e => (Raise e, P1, f0, f1)
+        | Ok c0 =>
+            let (F0, f0a) := fread f0 QCurv in let (F1, f1a) := fread f1 QCurv in
+            if same_shape (as_m F0) (as_m F1) then
+              if c_close_m Cm (as_m F0) (as_m F1) then (Ok tt, put_curv (Some (as_m F0)) P1, f0a, f1a)
+              else match c0 with
+                   | None => (Ok tt, P1, f0a, f1a)
+                   | Some m0 =>
+                       match cmd_prop f1a with
+                       | Raise e => (Raise e, P1, f0a, f1a)
+                       | Ok c1 =>
+                           if c_close_m Cm m0 (match c1 with Some m1 => m1 | None => [] end) then
+                             let (mo, f0b) := fread f0a QMomm in
+                             let (dv, f0c) := dvm_prop f0b in
+                             (Ok tt, put_cmd (Some m0) (put_dvm dv (put_momm (Some (as_l mo)) P1)), f0c, f1a)
+                           else (Ok tt, P1, f0a, f1a)
+                       end
+                   end
+            else (Ok tt, P1, f0a, f1a)
+        end
+    | SetReg =>                                                 (* set_regularization_matrix_and_term *)
+        let P1 := put_ldr None (put_reg None P) in
+        if negb (has_mapper inp0) then (Ok tt, P1, f0, f1)
+        else
+          let (l0, f0a) := fread f0 QLdr in
+          match as_rt l0 with
+          | Raise e => (Raise e, P1, f0a, f1)
+          | Ok x0 =>
+              let (l1, f1a) := fread f1 QLdr in
+              match as_rt l1 with
+              | Raise e => (Raise e, P1, f0a, f1a)
+              | Ok x1 =>
+                  if c_close_t Cm x0 x1
+                  then let (H, f0b) := fread f0a QReg in (Ok tt, put_ldr (Some x0) (put_reg (Some (as_m H)) P1), f0b, f1a)
+                  else (Ok tt, P1, f0a, f1a)
+              end
+          end
+    end.
+  (* the methods are called one after the other; an exception of one does not stop the caller from calling the next *)
+  Fixpoint run_setters (ss : list setter) (P : pstore T) (f0 f1 : fit) : list (res unit) * pstore T * fit * fit :=
+    match ss with
+    | [] => ([], P, f0, f1)
+    | s :: t => let '(r, P1, f0a, f1a) := run_setter s P f0 f1 in
+                let '(rs, P2, f0b, f1b) := run_setters t P1 f0a f1a in (r :: rs, P2, f0b, f1b)
+    end.
+  (* aa.Inversion(dataset, objs, settings, preloads=own): the inversion of a fit *)
+  Definition make_fit (inp : input T) (own : pstore T) : res fit :=
+    match make_inversion K inp own with
+    | Raise e => Raise e
+    | Ok mode => Ok {| f_inp := inp; f_mode := mode; f_st := {| cache := empty_cache T; store := own |} |}
+    end.
+End SetPreloads.
+
 (* ==================================================================================================== *)
 (* Execution instance: T = Q, dense reference semantics of the kernels; solver and log-determinants are   *)
 (* finite oracle tables taken from the implementation (execution devices of the correspondence run only). *)
@@ -643,10 +813,22 @@ Definition qrowdiv (m : qmat) (s : qvec) : qmat := map2 (fun r x => map (fun y =
 Definition qsq (v : qvec) : qvec := map (fun x => qmul x x) v.
 
 Definition qclose (tol a b : Q) : bool := Qle_bool (Qabs (a - b)) (tol * (1 + Qabs b)).
-Definition qvclose tol := list_eqb (qclose tol).
+(* comparisons are relative to the SCALE of the expected value (an absolute tolerance would hide tiny columns):
+   - arrays every entry of which the implementation computes exactly on the dyadic inputs of the correspondence run
+     (operated mapping matrices, data vector, curvature / regularization matrices and their sums, the slots) are compared
+     ENTRY-WISE relative: |a - b| <= tol |b|  (so an expected exact zero must be an exact zero);
+   - solved vectors (reconstruction, mapped data) relative to the largest expected entry;
+   - the regularization term s^T H s relative to |b| + amb, amb = (sum |s_i|)^2 max |H_ij| (its rounding scale);
+   - the two log-determinants with 1 + |b| (a logarithm has an absolute scale). *)
+Definition qrel (tol a b : Q) : bool := Qle_bool (Qabs (a - b)) (tol * Qabs b).
+Definition qvclose tol := list_eqb (qrel tol).
 Definition qmclose tol := list_eqb (qvclose tol).
+Definition qmaxabs (v : qvec) : Q := fold_left (fun m x => if Qle_bool m (Qabs x) then Qabs x else m) v 0.
+Definition qvclose_max (tol : Q) (a b : qvec) : bool :=
+  let s := qmaxabs b in list_eqb (fun x y => Qle_bool (Qabs (x - y)) (tol * s)) a b.
 Definition qtol : Q := 1 # 1000000000.
 Definition qkey : Q := 1 # 100000000.
+Definition qtol_spec : Q := 1 # 10000000.
 
 Record oracle := {
   or_solve : list ((qmat * qvec) * res qvec);
@@ -687,16 +869,46 @@ Definition qkernels (C : qmat) (o : oracle) : kernels Q := {|
 (* ---------------------------------------------------------------------------------------------------- *)
 (* correspondence cases                                                                                   *)
 Definition res_close {A} (eqa : A -> A -> bool) (x y : res A) : bool := res_eqb eqa x y.
-Definition pval_close (a b : pval Q) : bool :=
+(* model output [a] against implementation output [b] for attribute [q] *)
+Definition pval_close_at (amb : Q) (q : qty) (a b : pval Q) : bool :=
   match a, b with
   | PM x, PM y => qmclose qtol x y
   | PV x, PV y => qvclose qtol x y
   | PL x, PL y => list_eqb (qmclose qtol) x y
-  | PRV x, PRV y => res_close (qvclose qtol) x y
-  | PRT x, PRT y => res_close (qclose qtol) x y
+  | PRV x, PRV y => res_close (qvclose_max qtol) x y
+  | PRT x, PRT y =>
+      match q with
+      | QRegTerm => res_close (fun u v => Qle_bool (Qabs (u - v)) (qtol * (Qabs v + amb))) x y
+      | _ => res_close (qclose qtol) x y
+      end
   | _, _ => false
   end.
-Definition outs_close (a b : res (list (pval Q))) : bool := res_eqb (list_eqb pval_close) a b.
+Fixpoint list_close_at (amb : Q) (qs : list qty) (a b : list (pval Q)) : bool :=
+  match qs, a, b with
+  | [], [], [] => true
+  | q :: qt, x :: at_, y :: bt => pval_close_at amb q x y && list_close_at amb qt at_ bt
+  | _, _, _ => false
+  end.
+Definition outs_close_at (amb : Q) (qs : list qty) (a b : res (list (pval Q))) : bool :=
+  res_eqb (list_close_at amb qs) a b.
+Fixpoint hist_close_at (amb : Q) (h : list (list qty)) (a b : list (res (list (pval Q)))) : bool :=
+  match h, a, b with
+  | [], [], [] => true
+  | qs :: ht, x :: at_, y :: bt => outs_close_at amb qs x y && hist_close_at amb ht at_ bt
+  | _, _, _ => false
+  end.
+(* implementation output against implementation output (specification side: no model value available): identical
+   computations on identical bits, so everything is compared relative to its own size *)
+Definition pval_same (a b : pval Q) : bool :=
+  match a, b with
+  | PM x, PM y => qmclose qtol x y
+  | PV x, PV y => qvclose qtol x y
+  | PL x, PL y => list_eqb (qmclose qtol) x y
+  | PRV x, PRV y => res_close (qvclose_max qtol_spec) x y
+  | PRT x, PRT y => res_close (qrel qtol_spec) x y
+  | _, _ => false
+  end.
+Definition outs_close (a b : res (list (pval Q))) : bool := res_eqb (list_eqb pval_same) a b.
 
 Definition opt_close {A} (eqa : A -> A -> bool) := option_eqb eqa.
 Definition wt_close (a b : wtilde Q) : bool := qmclose qtol (wt_w a) (wt_w b) && Qeq_bool (wt_nv a) (wt_nv b).
@@ -733,20 +945,50 @@ Inductive case :=
 | KHist (C : qmat) (o : oracle) (inp : input Q) (pre : pstore Q) (h : list (list qty))
         (fresh : res (list (pval Q))) (outs : list (res (list (pval Q)))) (post : pstore Q)
   (* the factory given a Preloads object whose w_tilde may carry another noise_map_value *)
-| KNoise (inp : input Q) (pre : pstore Q) (raised : bool).
+| KNoise (inp : input Q) (pre : pstore Q) (raised : bool)
+  (* Preloads.set_*(fit_0, fit_1): the inversions of the two fits (input, own Preloads object), the attributes read from fit_0's inversion beforehand, the methods called in
+     order, and what the implementation did: which calls raised, the content of the Preloads object afterwards [post], the
+     attributes [reads1] read from fit_0's inversion AFTER the calls ([outs1]) and from a fresh inversion ([fresh1]);
+     [fresh_slots] = every slot as a fresh inversion of fit_0's class computes it (specification side);
+     [dvm_loose] = fit_0's own preloaded data_vector_mapper may already hold the function rows *)
+| KSet (C : qmat) (o : oracle) (inp0 : input Q) (own0 : pstore Q) (reads0 : list qty)
+       (inp1 : input Q) (own1 : pstore Q) (ss : list setter) (raised : list bool) (post : pstore Q)
+       (fresh_slots : pstore Q) (dvm_loose : bool) (reads1 : list qty) (outs1 fresh1 : res (list (pval Q))).
 
+(* np.max(abs(a - b)) < 1e-8 *)
+Definition qlt8 (a b : Q) : bool := negb (Qle_bool (1 # 100000000) (Qabs (a - b))).
+Definition qcmp : cmpk Q :=
+  {| c_close_v := list_eqb qlt8; c_close_m := list_eqb (list_eqb qlt8); c_close_t := qlt8 |}.
+Definition sumabs (v : qvec) : Q := fold_left (fun m x => qadd m (Qabs x)) v 0.
+(* rounding scale of the regularization term, from the model's own fresh values *)
+Definition amb_regterm (K : kernels Q) (inp : input Q) : Q :=
+  match fst (run_inversion K inp code empty_store [QRecRed; QRegRed]) with
+  | Ok [PRV (Ok s); PM H] => let a := sumabs s in qmul (qmul a a) (qmaxabs (concat H))
+  | _ => 0
+  end.
 Definition agree (k : case) : bool :=
   match k with
   | KHist C o inp pre h fresh outs post =>
       let K := qkernels C o in
+      let amb := amb_regterm K inp in
       let (mo, mp) := run_history K inp code pre h in
-      list_eqb outs_close mo outs && store_close mp post
+      hist_close_at amb h mo outs && store_close mp post
       && match h with
-         | qs :: _ => outs_close (fst (run_inversion K inp code empty_store qs)) fresh
+         | qs :: _ => outs_close_at amb qs (fst (run_inversion K inp code empty_store qs)) fresh
          | [] => true
          end
   | KNoise inp pre raised =>
       Bool.eqb (negb (is_ok (make_inversion (qkernels [] {| or_solve := []; or_ldc := []; or_ldr := [] |}) inp pre))) raised
+  | KSet C o inp0 own0 reads0 inp1 own1 ss raised post fresh_slots dvm_loose reads1 outs1 fresh1 =>
+      let K := qkernels C o in
+      match make_fit K inp0 own0, make_fit K inp1 own1 with
+      | Ok f0, Ok f1 =>
+          let (_, f0a) := freads K code f0 reads0 in
+          let '(rs, P, f0b, _) := run_setters K code qcmp ss empty_store f0a f1 in
+          list_eqb Bool.eqb (map (fun r : res unit => negb (is_ok r)) rs) raised && store_close P post
+          && outs_close_at (amb_regterm K inp0) reads1 (Ok (fst (freads K code f0b reads1))) outs1
+      | _, _ => false
+      end
   end.
 
 (* transparency / reuse / immutability stated on the implementation's outputs only *)
@@ -768,6 +1010,19 @@ Definition spec_ok (k : case) : bool :=
                      && match s_use_wt pre with Some b => b | None => true end in
       let w := match s_wt pre with Some w => w | None => ds_wt (in_ds inp) end in
       Bool.eqb raised (uses_wt && negb (Qeq_bool (hd 0 (ds_n (in_ds inp))) (wt_nv w)))
+  | KSet C o inp0 own0 reads0 inp1 own1 ss raised post fresh_slots dvm_loose reads1 outs1 fresh1 =>
+      (* what the set_* methods stored satisfies the fresh-value premise, and fit_0's inversion is undisturbed *)
+      let sub {A} (eqa : A -> A -> bool) (x y : option A) : bool :=
+        match x with Some v => match y with Some u => eqa v u | None => false end | None => true end in
+      sub (qmclose qtol) (s_omm post) (s_omm fresh_slots) && sub (qmclose qtol) (s_curv post) (s_curv fresh_slots)
+      && sub (qmclose qtol) (s_cmd post) (s_cmd fresh_slots) && sub (qmclose qtol) (s_reg post) (s_reg fresh_slots)
+      && (dvm_loose || sub (qvclose qtol) (s_dvm post) (s_dvm fresh_slots))
+      && sub (list_eqb (qmclose qtol)) (s_lf post) (s_lf fresh_slots)
+      && sub (list_eqb (qmclose qtol)) (s_dlf post) (s_dlf fresh_slots)
+      && sub (list_eqb (qmclose qtol)) (s_momm post) (s_momm fresh_slots)
+      && sub (qrel qtol_spec) (s_ldr post) (s_ldr fresh_slots)
+      && sub wt_close (s_wt post) (s_wt fresh_slots)
+      && outs_close outs1 fresh1
   end.
 
 Definition check (k : case) : nat := verdict (agree k) (spec_ok k).
